@@ -5,11 +5,12 @@
 #   ./check <property> against the mutated tree (VERIF_REPO) and prints the verdict.
 set -u
 D=$(realpath "$1"); TIER=${2:-quick}
+ROOT=$(cd "$(dirname "$0")/.." && pwd)
 PID=$(python3 -c "import json,sys; print(json.load(open('$D/meta.json'))['property'])")
 export GOFLAGS=-mod=mod GOPROXY=off GOSUMDB=off GOTOOLCHAIN=local
 WT=/tmp/mutrepo_$$
 git -C /repo worktree add -q --detach $WT HEAD || exit 2
-cleanup() { git -C /repo worktree remove --force $WT >/dev/null 2>&1; git -C /verif checkout -- harness/go.mod 2>/dev/null; }
+cleanup() { git -C /repo worktree remove --force $WT >/dev/null 2>&1; git -C $ROOT checkout -- harness/go.mod 2>/dev/null; }
 trap cleanup EXIT
 demo_target=$WT
 grep -q '"context"' "$D/meta.json" 2>/dev/null
@@ -25,7 +26,7 @@ cp "$D"/demo_test.go $demo_target/zz_demo_test.go
 (cd $demo_target && go test -vet=off -count=1 -run TestSeededDemo . >/tmp/mut_demo_$$.log 2>&1); demo_rc=$?
 rm -f $demo_target/zz_demo_test.go
 echo "mutant $(basename $D): property=$PID demo_on_clean_rc=$clean_rc build_rc=$build_rc existing_tests_rc=$tests_rc demo_on_mutant_rc=$demo_rc"
-cd /verif
+cd $ROOT
 out=$(VERIF_REPO=$WT ./check $PID $TIER 2>&1); rc=$?
 echo "$out" | tail -4 | cut -c1-400
 echo "RESULT $PID $(basename $D): valid=$([ $clean_rc -eq 0 -a $build_rc -eq 0 -a $tests_rc -eq 0 -a $demo_rc -ne 0 ] && echo yes || echo no) check_rc=$rc tier=$TIER"
